@@ -59,7 +59,7 @@ class HistoryHarness(Harness):
         self.params = {"scenario": self.scen_params, "kinds": self.kinds, "first": first, "second": second, "plan": self.plan}
 
     def scenario(self):
-        return TR.Scenario(**self.scen_params)
+        return TR.Scenario(**{k: v for k, v in self.scen_params.items() if k != "tx_start"})
 
     # -- run -------------------------------------------------------------------------------------------------
     def _run(self, M, script0):
